@@ -672,6 +672,11 @@ func c09ConcurrentRegistry(c *core.Ctx) {
 				<-start
 				for i := 0; i < 120; i++ {
 					lorawan.RegisterProprietaryMACCommand(rr.Bool(), lorawan.CID(0xE0+rr.Intn(4)), 1+rr.Intn(4))
+					if rr.Chance(1, 4) {
+						// registrations that are refused (or register nothing) must not leave anything behind that a decoder trips over
+						lorawan.RegisterProprietaryMACCommand(rr.Bool(), lorawan.CID(0xE0+rr.Intn(4)), -rr.Intn(4))
+						lorawan.RegisterProprietaryMACCommand(rr.Bool(), lorawan.CID(rr.Intn(0x80)), 1+rr.Intn(4))
+					}
 					if i%4 == 0 {
 						runtime.Gosched()
 					}
